@@ -84,6 +84,11 @@ std::string gen_string_value(Rng &r, bool hostile, int maxlen)
 	int n = (int)r.range(0, maxlen);
 	if (r.chance(1, 12))
 		n = 0;
+	else if (maxlen >= 8 && r.chance(1, 25)) {
+		// around the 32-byte growth step of the scanner's scratch buffer
+		static const int lens[] = {31, 32, 33, 63, 64, 65, 100};
+		n = lens[r.below(7)];
+	}
 	std::string s;
 	for (int i = 0; i < n; i++) {
 		unsigned k = (unsigned)r.below(10);
@@ -113,7 +118,7 @@ static bool unquoted_ok(const std::string &v)
 	return true;
 }
 
-std::string encode_string(Rng &r, const std::string &value, int style)
+std::string encode_string(Rng &r, const std::string &value, int style, bool newlines)
 {
 	if (style < 0)
 		style = (int)r.below(3);
@@ -122,39 +127,48 @@ std::string encode_string(Rng &r, const std::string &value, int style)
 			return value;
 		style = 2;
 	}
-	std::string o;
+	if (style == 1 && !newlines && value.find('\n') != std::string::npos)
+		style = 2; // single quotes have no escape for a newline
+	// the encoding is built from units so that a line continuation can be put between any two of them
+	std::vector<std::string> units;
 	char b[8];
 	if (style == 1) {
-		o = "'";
 		for (unsigned char c : value) {
 			if (c == '\'')
-				o += "\\'";
+				units.push_back("\\'");
 			else if (c == '\\')
-				o += "\\\\";
+				units.push_back("\\\\");
 			else
-				o += (char)c;
+				units.push_back(std::string(1, (char)c));
 		}
-		return o + "'";
+	} else {
+		for (unsigned char c : value) {
+			if (c == '"')
+				units.push_back("\\\"");
+			else if (c == '\\')
+				units.push_back("\\\\");
+			else if (c == '$')
+				units.push_back("\\$");
+			else if (c == '\n')
+				units.push_back((!newlines || r.chance(1, 2)) ? "\\n" : "\n");
+			else if (c == '\t' && r.chance(1, 2))
+				units.push_back("\\t");
+			else if (c < 0x20 && r.chance(1, 2)) {
+				snprintf(b, sizeof b, "\\x%02x", c);
+				units.push_back(b);
+			} else
+				units.push_back(std::string(1, (char)c));
+		}
 	}
-	o = "\"";
-	for (unsigned char c : value) {
-		if (c == '"')
-			o += "\\\"";
-		else if (c == '\\')
-			o += "\\\\";
-		else if (c == '$')
-			o += "\\$";
-		else if (c == '\n')
-			o += r.chance(1, 2) ? "\\n" : "\n";
-		else if (c == '\t' && r.chance(1, 2))
-			o += "\\t";
-		else if (c < 0x20 && r.chance(1, 2)) {
-			snprintf(b, sizeof b, "\\x%02x", c);
-			o += b;
-		} else
-			o += (char)c;
+	std::string o = style == 1 ? "'" : "\"";
+	for (size_t i = 0; i <= units.size(); i++) {
+		// backslash-newline: the string continues on the next line, nothing is added to the value
+		if (newlines && r.chance(1, 24))
+			o += "\\\n";
+		if (i < units.size())
+			o += units[i];
 	}
-	return o + "\"";
+	return o + (style == 1 ? "'" : "\"");
 }
 
 std::string gen_int_literal(Rng &r, long *value_out)
@@ -207,6 +221,11 @@ std::string gen_comment(Rng &r, bool)
 {
 	static const char *words[] = {"note", "x = 1", "{", "}", "\"", "'", "todo: fix", "a/b", "**", "#", "$", ""};
 	std::string body = words[r.below(sizeof(words) / sizeof(words[0]))];
+	if (r.chance(1, 10)) {
+		// lengths around multiples of the scanner's 32-byte scratch-buffer growth step
+		static const int lens[] = {30, 31, 32, 33, 63, 64, 65, 96, 130};
+		body += std::string((size_t)lens[r.below(9)], 'c');
+	}
 	if (r.chance(1, 2))
 		body = " " + body;
 	switch (r.below(4)) {
@@ -441,7 +460,7 @@ static void emit_value(Builder &b, const json &o, bool last = false)
 		std::string v = gen_string_value(r, false, 6);
 		if (v.empty())
 			v = "v";
-		b.tok(encode_string(r, v, r.chance(1, 2) ? 0 : 2), "v", "any");
+		b.tok(encode_string(r, v, r.chance(1, 2) ? 0 : 2, b.g.multiline), "v", "any");
 		b.set_dec(v);
 	} else if (t == "int") {
 		b.tok(gen_int_literal(r, nullptr), "v", "int");
@@ -454,22 +473,7 @@ static void emit_value(Builder &b, const json &o, bool last = false)
 		b.set_dec(b.c.t.substr(b.c.toks.back().s));
 	} else {
 		std::string v = gen_string_value(r, b.g.hostile);
-		if (!b.g.multiline) {
-			// keep strings on one line
-			std::string v2;
-			for (char ch : v)
-				if (ch != '\n')
-					v2 += ch;
-			v = v2;
-		}
-		std::string enc = encode_string(r, v, -1);
-		if (!b.g.multiline) {
-			std::string e2;
-			for (char ch : enc)
-				if (ch != '\n')
-					e2 += ch;
-			enc = e2;
-		}
+		std::string enc = encode_string(r, v, -1, b.g.multiline);
 		b.tok(enc, "v", "str");
 		b.set_dec(v);
 	}
@@ -519,12 +523,8 @@ static void emit_item(Builder &b, const json &o)
 			std::string title = gen_string_value(r, b.g.hostile, 6);
 			if (b.g.unique_titles || (fl & F_NO_TITLE_DUPES))
 				title += "#" + std::to_string(r.below(100000));
-			std::string enc = encode_string(r, title, r.chance(1, 3) ? 0 : 2);
-			std::string e2;
-			for (char ch : enc)
-				if (ch != '\n' || b.g.multiline)
-					e2 += ch;
-			b.tok(e2, "t", "str");
+			b.tok(encode_string(r, title, r.chance(1, 3) ? 0 : 2, b.g.multiline), "t", "str");
+			b.set_dec(title);
 		}
 		b.sep();
 		b.tok("{", "p", "secopen");
@@ -546,7 +546,7 @@ static void emit_item(Builder &b, const json &o)
 		b.tok("(", "p", "fopen");
 		if (o.value("fn", std::string()) == "include") {
 			std::string target = b.g.include_targets.empty() ? "/nonexistent" : r.pick(b.g.include_targets);
-			b.tok(encode_string(r, target, 2), "a", "str");
+			b.tok(encode_string(r, target, 2, false), "a", "str");
 		} else {
 			int n = (int)r.range(0, 3);
 			for (int i = 0; i < n; i++) {
@@ -555,19 +555,7 @@ static void emit_item(Builder &b, const json &o)
 					b.ws();
 				}
 				std::string v = gen_string_value(r, b.g.hostile, 6);
-				if (!b.g.multiline) {
-					std::string v2;
-					for (char ch : v)
-						if (ch != '\n')
-							v2 += ch;
-					v = v2;
-				}
-				std::string enc = encode_string(r, v, -1);
-				std::string e2;
-				for (char ch : enc)
-					if (ch != '\n' || b.g.multiline)
-						e2 += ch;
-				b.tok(e2, "a", "str");
+				b.tok(encode_string(r, v, -1, b.g.multiline), "a", "str");
 				b.set_dec(v);
 			}
 		}
@@ -616,7 +604,7 @@ static void emit_items(Builder &b, const json &opts, int budget, bool kv_section
 			b.tok("=", "o", "");
 			b.sep();
 			std::string v = gen_string_value(r, b.g.hostile, 8);
-			b.tok(encode_string(r, v, -1), "v", "str");
+			b.tok(encode_string(r, v, -1, b.g.multiline), "v", "str");
 			b.set_dec(v);
 			b.c.toks.back().lastv = true;
 			b.cur_opt = saved;
